@@ -80,6 +80,12 @@ type Disk struct {
 }
 
 func shmDir() string {
+	// The driver gives each check its own TMPDIR (on /dev/shm when there is
+	// one) and removes it afterwards, so that a killed or restarted worker
+	// leaves nothing behind.
+	if dir := os.Getenv("TMPDIR"); dir != "" {
+		return dir
+	}
 	if st, err := os.Stat("/dev/shm"); err == nil && st.IsDir() {
 		return "/dev/shm"
 	}
